@@ -59,13 +59,16 @@ def run(ctx, rule="C09.R6"):
         ok = bool(lst)
         for em, r, ps in lst:
             rets = [p for p in ps if p.returns]
-            ok = ok and len(rets) == 1
+            ok = ok and len(rets) in (1, 2)          # one path with a conditional whence, or the two paths the conditional expands into
             for p in rets:
                 t = Trace(p, IO)
                 evs = [e for e in p.events if e.kind in ("TELL", "SEEK", "SUB")]
                 off = ("param", "offset")
+                neg = N.mk_cmp("<", off, N.const(0))
+                d = decided(p, neg)
+                wh = evs[1]["whence"] if len(evs) > 1 else None
                 ok = ok and [e.kind for e in evs] == ["TELL", "SEEK", "SUB", "SEEK"] and evs[1]["offset"] == off \
-                    and evs[1]["whence"] == ("ite", N.mk_cmp("<", off, N.const(0)), N.const(2), N.const(0)) and t.final == p0 and p.retval == evs[2]["res"]
+                    and (wh == ("ite", neg, N.const(2), N.const(0)) or (d is True and wh == N.const(2)) or (d is False and wh == N.const(0))) and t.final == p0 and p.retval == evs[2]["res"]
         ctx.ob(rule, fi, ok, "generated %s tells, seeks with whence 2 exactly for a negative offset, runs the inner code, and ends at the entry position" % helper, key=helper)
     # ---- parse_union
     fi, lst = helper_paths(ctx, "Union._emitparse", "parse_union")
